@@ -209,8 +209,13 @@ func (g *Gen) getPath(term string, t types.Type, sels []Sel) string {
 			t = s.ArrT.Elem()
 		} else {
 			st := s.StructT.Underlying().(*types.Struct)
-			g.sortOf(s.StructT)
-			term = fmt.Sprintf("(%s %s)", g.accessor(g.structName(s.StructT), st.Field(s.Field).Name(), s.Field), term)
+			osort := g.sortOf(s.StructT)
+			acc := g.accessor(g.structName(s.StructT), st.Field(s.Field).Name(), s.Field)
+			if g.isOpaqueStruct(s.StructT) {
+				// exported field of an opaque (foreign) struct: an uninterpreted projection
+				g.decl("fun:"+acc, fmt.Sprintf("(declare-fun %s (%s) %s)", acc, osort, g.sortOf(st.Field(s.Field).Type())))
+			}
+			term = fmt.Sprintf("(%s %s)", acc, term)
 			t = st.Field(s.Field).Type()
 		}
 	}
